@@ -82,6 +82,9 @@ def run(tier, seed):
                 texts.append(g.script(syms_prob=0.7))
             except Exception:  # noqa: BLE001
                 pass
+    # scalar declarations of the bare type "array" (must not become uninitialised memory, which differs from process to process)
+    for init in ["3", "True", "40", "n + 1"]:
+        texts.append("name a\nversion 1.0\nint n = 4\narray x = %s\nOp(x, 2) | 0\nfloat array A =\n    1, 2\nKgate(A, x) | 1\n" % init)
     seeds = [0, 1, 2, 3, 4, 5, 6, 7] if quick else list(range(64))
     ok = True
     # "every run": besides the hash seed the runs differ in the order in which the scripts are loaded (odd seeds: reversed)
@@ -212,6 +215,46 @@ def run(tier, seed):
                     break
             if not ok:
                 break
+        # "every process": include strings that LOOK like shell or user shorthand (~, ~user, $VAR, %VAR%) are file names like any
+        # other, relative to the including file; processes whose HOME / variables point at directories holding other programs of the
+        # same name load the same content
+        if ok:
+            envroot = os.path.join(scratch, "envs")
+            main_dir = os.path.join(envroot, "proj")
+            incs = ["~/gates.xbb", "$BBV_LIB/gates.xbb", "${BBV_LIB}/gates.xbb", "%BBV_LIB%/gates.xbb", "~root/gates.xbb", "~gates.xbb"]
+            items = []
+            for k, inc in enumerate(incs):
+                fp = os.path.join(main_dir, inc)
+                os.makedirs(os.path.dirname(fp), exist_ok=True)
+                open(fp, "w").write("name G\nversion 1.0\n\nSgate({a}) | 0\nRgate({a}) | 2\n")
+                mp = os.path.join(main_dir, "main%d.xbb" % k)
+                open(mp, "w").write('name main\nversion 1.0\ninclude "%s"\n\nG(a=0.25) | [3, 1]\n' % inc)
+                items.append({"kind": "load", "path": mp})
+            envs = []
+            for j in range(3):
+                hd = os.path.join(envroot, "home_%d" % j)
+                os.makedirs(hd, exist_ok=True)
+                if j < 2:
+                    open(os.path.join(hd, "gates.xbb"), "w").write("name G\nversion 1.0\n\nBSgate({a}, %d.5) | [0, 2]\n" % j)
+                envs.append({"HOME": hd, "BBV_LIB": hd, "USERPROFILE": hd})
+            outs = subproc.run_many([(items, "0", None, e) for e in envs] + [(items, "0", None)])
+            for k, inc in enumerate(incs):
+                res.count("include-name-with-environment-shorthand")
+                res.case("env-include-%d" % k, True, None)
+                ref = json.dumps(outs[-1][k], sort_keys=True)
+                if outs[-1][k].get("out") != "ok":
+                    ok = False
+                    res.violate("a script that includes the file %r (next to it) does not load: %s" % (inc, json.dumps(outs[-1][k])[:160]), {"check": "env-include", "include": inc})
+                    break
+                for j, o in enumerate(outs[:-1]):
+                    if json.dumps(o[k], sort_keys=True) != ref:
+                        ok = False
+                        res.violate("the content of a script that includes %r depends on the environment variables of the process (HOME/BBV_LIB = home_%d): %s vs %s"
+                                    % (inc, j, json.dumps(o[k].get("obs", o[k]).get("ops", o[k]) if isinstance(o[k].get("obs"), dict) else o[k])[:160], json.dumps(outs[-1][k]["obs"]["ops"])[:160]),
+                                    {"check": "env-include", "include": inc})
+                        break
+                if not ok:
+                    break
         # "every run": the caller of an earlier load has edited, in place, the program it was given (options, variables, operations,
         # array data): what a later load of the same or of another script returns is the content of a fresh process
         if ok:
@@ -264,6 +307,9 @@ def replay(rep):
     inp = rep["input"]
     if inp.get("check") == "repeated":
         print("re-run the check: the violation depends on the number of earlier loads in the process")
+        return run("quick", rep.get("seed", 0))
+    if inp.get("check") == "env-include":
+        print("re-run the check: the violation depends on environment variables and files the check creates")
         return run("quick", rep.get("seed", 0))
     if inp.get("check") == "customise":
         h = subproc.run_batch([{"kind": "history", "steps": inp["steps"]}], "0")[0]
